@@ -19,12 +19,18 @@ def _const(node, typ):
     raise extract.ExtractError("expected a %s literal, got %s" % (typ.__name__, ast.dump(node)[:80]))
 
 
+_NAMED_SLICES = {}      # module-level  NAME = slice(a, b)  constants of the file being read
+
+
 def _slice_of(node, var="buf"):
-    """node must be  buf[a:b]  with integer literals; returns (a, b)."""
-    if (isinstance(node, ast.Subscript) and isinstance(node.value, ast.Name) and node.value.id == var
-            and isinstance(node.slice, ast.Slice) and node.slice.step is None
-            and node.slice.lower is not None and node.slice.upper is not None):
-        return _const(node.slice.lower, int), _const(node.slice.upper, int)
+    """node must be  buf[a:b]  with integer literals, or  buf[NAME]  with a module-level
+    NAME = slice(a, b)  of integer literals; returns (a, b)."""
+    if (isinstance(node, ast.Subscript) and isinstance(node.value, ast.Name) and node.value.id == var):
+        sl = node.slice
+        if isinstance(sl, ast.Slice) and sl.step is None and sl.lower is not None and sl.upper is not None:
+            return _const(sl.lower, int), _const(sl.upper, int)
+        if isinstance(sl, ast.Name) and sl.id in _NAMED_SLICES:
+            return _NAMED_SLICES[sl.id]
     raise extract.ExtractError("expected %s[a:b], got %s" % (var, ast.dump(node)[:120]))
 
 
@@ -35,6 +41,13 @@ def _bytes_list(b):
 @extract.register("ArConsts")
 def _gen_arconsts(repo):
     tree = extract._parse(repo, "lib/debian/arfile.py")
+    _NAMED_SLICES.clear()
+    for st in tree.body:
+        if (isinstance(st, ast.Assign) and len(st.targets) == 1 and isinstance(st.targets[0], ast.Name)
+                and isinstance(st.value, ast.Call) and isinstance(st.value.func, ast.Name) and st.value.func.id == "slice"
+                and len(st.value.args) == 2 and not st.value.keywords
+                and all(isinstance(a, ast.Constant) and type(a.value) is int for a in st.value.args)):
+            _NAMED_SLICES[st.targets[0].id] = (st.value.args[0].value, st.value.args[1].value)
     gh = _const(extract.find_assign(tree.body, "GLOBAL_HEADER"), bytes)
     ghl = extract.find_assign(tree.body, "GLOBAL_HEADER_LENGTH")
     if not (isinstance(ghl, ast.Call) and isinstance(ghl.func, ast.Name) and ghl.func.id == "len"
